@@ -278,3 +278,25 @@ pub fn tiny_f() -> f64 {
 pub fn tiny_c4() -> Coor4D {
     Coor4D([tiny_f(), tiny_f(), tiny_f(), tiny_f()])
 }
+
+/// M-UTF8: model of `core::str::from_utf8` — ASCII input is valid, anything else is rejected.
+/// The real validator's block-wise fast path does not get through CBMC in reasonable time.
+/// Under-approximation for non-ASCII input (valid multi-byte text is treated as invalid):
+/// stated as a bound wherever this stub is listed.
+pub fn stub_from_utf8(v: &[u8]) -> Result<&str, core::str::Utf8Error> {
+    let mut i = 0;
+    let mut ascii = true;
+    while i < v.len() {
+        if v[i] >= 128 {
+            ascii = false;
+        }
+        i += 1;
+    }
+    if ascii {
+        Ok(unsafe { core::str::from_utf8_unchecked(v) })
+    } else {
+        // the std error type has no public constructor; obtain one from the real function on a
+        // two-byte constant
+        Err(core::str::from_utf8(&[0xC3u8, 0x28u8]).unwrap_err())
+    }
+}
